@@ -4,7 +4,9 @@
 
 pub mod dispatch;
 
-use substrate_fixed::traits::Fixed;
+use substrate_fixed::traits::{Fixed, FromFixed, ToFixed};
+use vcore::out::Outs;
+use vcore::Out;
 use substrate_fixed::types::extra::{LeEqU128, LeEqU16, LeEqU32, LeEqU64, LeEqU8};
 use substrate_fixed::{
     FixedI128, FixedI16, FixedI32, FixedI64, FixedI8, FixedU128, FixedU16, FixedU32, FixedU64, FixedU8,
@@ -32,6 +34,83 @@ pub trait VF: Fixed + 'static {
     fn ref_op_int(a: Self, b: Self::Bits, op: u8, form: u8) -> Self;
     /// unary by-reference forms: 0 `-&a` (signed only, else returns a), 1 `!&a`
     fn ref_un(a: Self, op: u8) -> Self;
+    /// all six operators and partial_cmp, in both operand orders, against a primitive integer
+    /// (kind index into vcore::INTS, raw bits `t`)
+    fn cmp_int(st: usize, a: Self, kind: usize, t: u128, outs: &mut Outs);
+    fn cmp_f32(st: usize, a: Self, t: f32, outs: &mut Outs);
+    fn cmp_f64(st: usize, a: Self, t: f64, outs: &mut Outs);
+    fn lossy_f32(a: Self) -> f32;
+    fn lossy_f64(a: Self) -> f64;
+}
+
+pub fn ord_out(o: Option<core::cmp::Ordering>) -> Out {
+    Out::O(o.map(|x| match x {
+        core::cmp::Ordering::Less => 0,
+        core::cmp::Ordering::Equal => 1,
+        core::cmp::Ordering::Greater => 2,
+    }))
+}
+
+/// the 14 comparison outputs of `$a` (left) against `$t` (right) as `step!`s 0..14
+#[macro_export]
+macro_rules! cmp14 {
+    ($st:ident, $outs:ident, $a:expr, $t:expr) => {{
+        let a = $a;
+        let t = $t;
+        vcore::step!($st, $outs, 0, "eq", vcore::Out::B(a == t));
+        vcore::step!($st, $outs, 1, "ne", vcore::Out::B(a != t));
+        vcore::step!($st, $outs, 2, "lt", vcore::Out::B(a < t));
+        vcore::step!($st, $outs, 3, "le", vcore::Out::B(a <= t));
+        vcore::step!($st, $outs, 4, "gt", vcore::Out::B(a > t));
+        vcore::step!($st, $outs, 5, "ge", vcore::Out::B(a >= t));
+        vcore::step!($st, $outs, 6, "partial_cmp", $crate::ord_out(a.partial_cmp(&t)));
+        vcore::step!($st, $outs, 7, "r_eq", vcore::Out::B(t == a));
+        vcore::step!($st, $outs, 8, "r_ne", vcore::Out::B(t != a));
+        vcore::step!($st, $outs, 9, "r_lt", vcore::Out::B(t < a));
+        vcore::step!($st, $outs, 10, "r_le", vcore::Out::B(t <= a));
+        vcore::step!($st, $outs, 11, "r_gt", vcore::Out::B(t > a));
+        vcore::step!($st, $outs, 12, "r_ge", vcore::Out::B(t >= a));
+        vcore::step!($st, $outs, 13, "r_partial_cmp", $crate::ord_out(t.partial_cmp(&a)));
+    }};
+}
+
+/// primitive integers as conversion partners
+pub trait IntRaw: Copy + ToFixed + FromFixed + 'static {
+    fn from_raw(r: u128) -> Self;
+    fn raw(self) -> u128;
+}
+macro_rules! int_raw {
+    ($($T:ty, $U:ty);*) => { $(
+        impl IntRaw for $T {
+            #[inline]
+            fn from_raw(r: u128) -> Self { r as $T }
+            #[inline]
+            fn raw(self) -> u128 { self as $U as u128 }
+        }
+    )* };
+}
+int_raw! { i8, u8; i16, u16; i32, u32; i64, u64; i128, u128; isize, usize; u8, u8; u16, u16; u32, u32; u64, u64; u128, u128; usize, usize }
+
+/// dispatch an integer kind index (order of vcore::INTS) to its type
+#[macro_export]
+macro_rules! with_int {
+    ($k:expr, $T:ident => $e:expr) => {
+        match $k {
+            0 => { type $T = i8; $e }
+            1 => { type $T = i16; $e }
+            2 => { type $T = i32; $e }
+            3 => { type $T = i64; $e }
+            4 => { type $T = i128; $e }
+            5 => { type $T = isize; $e }
+            6 => { type $T = u8; $e }
+            7 => { type $T = u16; $e }
+            8 => { type $T = u32; $e }
+            9 => { type $T = u64; $e }
+            10 => { type $T = u128; $e }
+            11 => { type $T = usize; $e }
+            _ => panic!("int kind out of range"),
+        }
+    };
 }
 
 macro_rules! refops {
@@ -88,6 +167,21 @@ macro_rules! impl_vf {
             fn ref_un(a: Self, op: u8) -> Self {
                 let f: fn(Self, u8) -> Self = $neg;
                 f(a, op)
+            }
+            fn cmp_int(st: usize, a: Self, kind: usize, t: u128, outs: &mut Outs) {
+                $crate::with_int!(kind, T => { let t = <T as IntRaw>::from_raw(t); $crate::cmp14!(st, outs, a, t) });
+            }
+            fn cmp_f32(st: usize, a: Self, t: f32, outs: &mut Outs) {
+                $crate::cmp14!(st, outs, a, t);
+            }
+            fn cmp_f64(st: usize, a: Self, t: f64, outs: &mut Outs) {
+                $crate::cmp14!(st, outs, a, t);
+            }
+            fn lossy_f32(a: Self) -> f32 {
+                <f32 as substrate_fixed::traits::LossyFrom<Self>>::lossy_from(a)
+            }
+            fn lossy_f64(a: Self) -> f64 {
+                <f64 as substrate_fixed::traits::LossyFrom<Self>>::lossy_from(a)
             }
         }
     };
